@@ -88,4 +88,45 @@ theorem rowCells_group_cells (env : Env) (r : Reduce) (key : Bytes) (data : List
   simp only [List.length_append, List.length_map, List.length_replicate, List.length_take]
   omega
 
+/-! ### several frames -/
+
+/-- the render callback run once per frame, in order (`helpers.RunAggregationLoop`: every 100 ms tick and once at the end),
+each frame with the groups (sorted, with their data) of its moment -/
+def Reduce.renderAll (env : Env) (f0 f1 : Bytes) : Reduce × VirtualTerm → List (List (Bytes × List Bytes)) → Res (Reduce × VirtualTerm)
+  | st, [] => .ok st
+  | st, frame :: rest =>
+    match st.1.render env st.2 frame f0 f1 with
+    | .ok st' => Reduce.renderAll env f0 f1 st' rest
+    | .error e => .error e
+
+/-- any number of frames: no panic, the invariant, and the rows show the LAST frame – row `i + 1` is `rowCells` of group `i`
+of the last frame, whatever the earlier frames drew -/
+theorem reduce_renderAll (env : Env) (f0 f1 : Bytes) (frames : List (List (Bytes × List Bytes))) (last : List (Bytes × List Bytes))
+    (r : Reduce) (vt : VirtualTerm) (hinv : TableInv env r.table vt) :
+    ∃ r' vt', Reduce.renderAll env f0 f1 (r, vt) (frames ++ [last]) = .ok (r', vt') ∧ TableInv env r'.table vt' ∧
+      r'.gnames = r.gnames ∧ r'.dnames = r.dnames ∧ r'.table.maxRows = r.table.maxRows ∧
+      (∀ (i : Nat) (g : Bytes × List Bytes), last[i]? = some g → ((i : Int) + 1 < r.table.maxRows) →
+        r'.table.rows[i + 1]? = some (r.rowCells env g.1 g.2)) := by
+  induction frames generalizing r vt with
+  | nil =>
+    obtain ⟨r', vt', h1, h2, h3, h4, h5, h6⟩ := reduce_render env r vt hinv last f0 f1
+    refine ⟨r', vt', ?_, h2, h3, h4, h5, h6⟩
+    show Reduce.renderAll env f0 f1 (r, vt) [last] = _
+    unfold Reduce.renderAll
+    simp only [h1]
+    rfl
+  | cons frame rest ih =>
+    obtain ⟨r1, vt1, h1, h2, h3, h4, h5, _⟩ := reduce_render env r vt hinv frame f0 f1
+    obtain ⟨r', vt', k1, k2, k3, k4, k5, k6⟩ := ih r1 vt1 h2
+    refine ⟨r', vt', ?_, k2, k3.trans h3, k4.trans h4, k5.trans h5, ?_⟩
+    · show Reduce.renderAll env f0 f1 (r, vt) (frame :: (rest ++ [last])) = _
+      unfold Reduce.renderAll
+      simp only [h1]
+      exact k1
+    · intro i g hg hlt
+      have := k6 i g hg (by rw [h5]; exact hlt)
+      rw [this]
+      unfold Reduce.rowCells
+      rw [h3, h4]
+
 end Rare.C14
